@@ -60,23 +60,183 @@ def _is_stride_len(t, recv):
     return t[0] == "call" and t[1] == ("Stride", "len") and bool(t[2]) and t[2][0] == recv
 
 
-def stride_pos_in_range(ctx, bb, pos, recv, strict):
+_BOUNDED = {}
+
+
+def len_bounded_fields(F):
+    """{(adt, field)}: usize fields of a struct that also holds a Stride (field `S`) for which
+    `field <= Stride::len(S)` is an invariant: every constructor sets it to Stride::len of the
+    value it stores in S, S is never written afterwards, and every other store to the field
+    writes the field minus something (plain or checked subtraction of unsigned terms), or a value
+    that a still-valid dominating fact puts at or below the field (or below it).  A back cursor
+    `end` of a stride iterator is the instance this is for."""
+    key = id(F)
+    if key in _BOUNDED:
+        return _BOUNDED[key]
+    from expr import nobb, lin, lin_sub, fact_still_holds
+    out = set()
+    for adt, a in F.adts.items():
+        if a.get("kind") != "struct" or not a["variants"]:
+            continue
+        fields = a["variants"][0]["fields"]
+        sfs = [f["name"] for f in fields if f["ty"]["s"] == "impls::index::Stride"]
+        if len(sfs) != 1:
+            continue
+        sname = sfs[0]
+        names = [f["name"] for f in fields]
+        cands = {f["name"] for f in fields if f["ty"]["s"] == "usize"}
+        ctor_seen = False
+        ctor_bad = set()
+        stride_rewritten = [False]
+        all_usize = set(cands)
+        for b in F.bodies.values():
+            if b.in_tests() or b.derived:
+                continue
+            ctx = None
+            for bi in sorted(b.live_blocks()):
+                for si, st in enumerate(b.blocks[bi]["stmts"]):
+                    if st["k"] != "assign":
+                        continue
+                    rv = st["rv"]
+                    if rv["k"] == "aggregate" and rv.get("agg") == "adt" and rv.get("adt") == adt:
+                        ctx = ctx or Ctx(b)
+                        ctor_seen = True
+                        ops = dict(zip(rv.get("fields") or names, rv["ops"]))
+                        sval = nobb(operand_tree(ctx, ops[sname])) if sname in ops else None
+                        for fn in list(cands):
+                            v = nobb(operand_tree(ctx, ops[fn])) if fn in ops else None
+                            if not (v is not None and v[0] == "call" and v[1] == ("Stride", "len") and v[2] and
+                                    (v[2][0] == sval or (sval is not None and sval[0] == "place" and v[2][0][0] == "place" and
+                                                         v[2][0][2:] == sval[2:]))):
+                                cands.discard(fn)
+                                ctor_bad.add(fn)
+                    elif st["place"]["p"] and b.self_adt == adt:
+                        ctx = ctx or Ctx(b)
+                        for (r, pth) in ctx.org.place(st["place"]):
+                            if r != ("arg", 1) or not pth:
+                                continue
+                            if pth[0] == "f:" + sname:
+                                cands.clear()  # the stride is replaced after construction
+                                stride_rewritten[0] = True
+                            fn = pth[0][2:]
+                            if fn not in cands or len(pth) != 1:
+                                continue
+                            cur = ("place", b.key, ("arg", 1), ("f:" + fn,))
+                            val = nobb(trees(ctx, ctx.org.rvalue(rv, bi, si)))
+                            d = lin_sub(lin(val), lin(cur))
+                            nonincr = all(v <= 0 for v in d.values())
+                            if not nonincr:
+                                # a value a fresh dominating fact puts at or below the field
+                                okf = False
+                                for f in facts_at(ctx, bi):
+                                    if f[0] not in ("Lt", "Le", "Gt", "Ge") or not fact_still_holds(ctx, f, bi, ignore=st):
+                                        continue
+                                    op, x, y = f[0], nobb(f[1]), nobb(f[2])
+                                    if op in ("Gt", "Ge"):
+                                        x, y = y, x
+                                    if y == cur and not lin_sub(lin(x), lin(val)):
+                                        okf = True
+                                if not okf:
+                                    cands.discard(fn)
+        ctor_cands = all_usize - ctor_bad if not stride_rewritten[0] else set()
+        if ctor_seen:
+            for fn in cands:
+                out.add((adt, fn, sname))
+            for fn in ctor_cands - cands:
+                out.add((adt, fn, sname, "unproven"))
+    _BOUNDED[key] = out
+    if len(_BOUNDED) > 4:
+        _BOUNDED.pop(next(iter(_BOUNDED)))
+    return out
+
+
+def _bounded_by_len(F, ctx, t, recv):
+    """tree t is Stride::len(recv) or a field of the same value as recv that is invariantly <= it"""
+    if _is_stride_len(t, recv):
+        return True
+    if F is None or t[0] != "place" or recv[0] != "place" or t[1:3] != recv[1:3] or not t[3] or not recv[3]:
+        return False
+    if tuple(t[3][:-1]) != tuple(recv[3][:-1]):
+        return False
+    for ent in len_bounded_fields(F):
+        if len(ent) == 3 and t[3][-1] == "f:" + ent[1] and recv[3][-1] == "f:" + ent[2]:
+            return True
+    return False
+
+
+def _unproven_bound(F, t, recv):
+    """t is a field that every constructor sets to Stride::len of the stride stored next to it,
+    but whose later stores this rule cannot show to keep it at or below that length (they rely on
+    a relation between two cursors)"""
+    if F is None or t[0] != "place" or recv[0] != "place" or t[1:3] != recv[1:3] or not t[3] or not recv[3]:
+        return False
+    for ent in len_bounded_fields(F):
+        if len(ent) == 4 and t[3][-1] == "f:" + ent[1] and recv[3][-1] == "f:" + ent[2]:
+            return True
+    return False
+
+
+def stride_pos_in_range(ctx, bb, pos, recv, strict, F=None):
     """the position handed to Stride::index is below Stride::len(recv) at block bb:
     (a) a dominating strict comparison pos < len(recv); or
     (c) the position is yielded by the half-open range a..len(recv); or
     (b) the stride is known to be non-empty there (some x < len(recv), len(recv) != 0 / > 0 / >= 1,
         or !is_empty(recv)) and pos is the constant 0 or exactly len(recv) - 1 (plain subtraction)."""
-    from expr import nobb
+    from expr import nobb, lin, lin_sub, fact_still_holds
     if any(_is_stride_len(s, recv) for s in strict):
         return True
+    # (a') pos < F for a field F that is invariantly <= len(recv) (a back cursor), the fact being fresh
+    if F is not None:
+        for f in facts_at(ctx, bb):
+            if f[0] not in ("Lt", "Gt"):
+                continue
+            a, b_ = (f[1], f[2]) if f[0] == "Lt" else (f[2], f[1])
+            if lin_eq(nlin(a), nlin(pos)) and _bounded_by_len(F, ctx, nobb(b_), nobb(recv)) and fact_still_holds(ctx, f, bb):
+                return True
+        # (d) pos is such a field right after it was stepped down: a dominating store writes the
+        #     field minus at least one, under a fact that kept it above some unsigned value
+        npos, nrecv = nobb(pos), nobb(recv)
+        if npos[0] == "place" and _bounded_by_len(F, ctx, npos, nrecv) and not _is_stride_len(npos, nrecv):
+            body = ctx.body
+            stores = []
+            for bi in body.live_blocks():
+                for si, st in enumerate(body.blocks[bi]["stmts"]):
+                    if st["k"] == "assign" and st["place"]["p"] and any(
+                            r == npos[2] and tuple(pth) == tuple(npos[3]) for (r, pth) in ctx.org.place(st["place"])):
+                        stores.append((bi, si, st))
+            doms = [(bi, si, st) for (bi, si, st) in stores if bi == bb or body.dominates(bi, bb)]
+            others = [x for x in stores if x not in doms and bb in reach_strict(body, x[0])]
+            if len(doms) == 1 and not others:
+                (bi, si, st) = doms[0]
+                val = nobb(trees(ctx, ctx.org.rvalue(st["rv"], bi, si)))
+                d = lin_sub(lin(val), lin(npos))
+                if all(v <= 0 for v in d.values()) and d.get(1, 0) <= -1:
+                    return True
     # (c) the position is an element of the half-open range `a..Stride::len(recv)`
     t = pos
     if t[0] == "call" and t[1] == ("Iterator", "next") and tuple(t[3]) == ("v:Some", "f:0") and t[2]:
         src = t[2][0]
         while src[0] == "call" and src[1][1] in ("into_iter", "by_ref", "iter") and src[2]:
             src = src[2][0]
-        if src[0] == "agg" and src[1] == "Range::Range" and len(src[2]) == 2 and _is_stride_len(src[2][1], recv):
+        if src[0] == "agg" and src[1] == "Range::Range" and len(src[2]) == 2 and \
+                (_is_stride_len(src[2][1], recv) or _bounded_by_len(F, ctx, nobb(src[2][1]), nobb(recv))):
             return True
+    # (c') the position is the element parameter of a closure that fold / rfold / for_each / map
+    #      run over such a range
+    if t[0] == "place" and t[1] == ctx.body.key and t[2][0] == "arg" and t[2][1] >= 2 and not t[3] and \
+            ctx.parent is not None and ctx.consumer:
+        pt = ctx.parent.body.term(ctx.consumer[0])
+        if pt["k"] == "call" and callee_tag(pt.get("callee"))[1] in ("fold", "rfold", "for_each", "map", "try_fold", "try_rfold") \
+                and pt["args"]:
+            last_param = ctx.body.nargs
+            if t[2][1] == last_param:
+                src = nobb(operand_tree(ctx.parent, pt["args"][0]))
+                while src[0] == "call" and src[1][1] in ("into_iter", "by_ref", "iter", "rev") and src[2]:
+                    src = src[2][0]
+                nrecv = nobb(recv)
+                if src[0] == "agg" and src[1] == "Range::Range" and len(src[2]) == 2 and \
+                        (_is_stride_len(src[2][1], nrecv) or _bounded_by_len(F, ctx.parent, src[2][1], nrecv)):
+                    return True
     nonempty = False
     for f in facts_at(ctx, bb):
         op = f[0]
@@ -102,6 +262,20 @@ def stride_pos_in_range(ctx, bb, pos, recv, strict):
         return True
     if pos[0] == "bin" and pos[1] == "Sub" and _is_stride_len(pos[2], recv) and pos[3] == ("const", "1"):
         return True
+    return False
+
+
+def _bounded_minus_one(F, ctx, bb, pos, recv):
+    """pos = B - 1 where B is invariantly <= len(recv) and a fresh fact x < B shows B >= 1"""
+    from expr import nobb, fact_still_holds
+    p = nobb(pos)
+    if not (p[0] == "bin" and p[1] == "Sub" and p[3] == ("const", "1") and _bounded_by_len(F, ctx, p[2], nobb(recv))):
+        return False
+    for f in facts_at(ctx, bb):
+        if f[0] in ("Lt", "Gt"):
+            b_ = f[2] if f[0] == "Lt" else f[1]
+            if nobb(b_) == p[2] and fact_still_holds(ctx, f, bb):
+                return True
     return False
 
 
@@ -399,7 +573,23 @@ def r_bound_stride_sites(F, R):
             recv = trees(ctx, ctx.org.operand(t["args"][0]))
             pos = operand_tree(ctx, t["args"][1])
             strict, weak = strict_bound_facts(ctx, bi, pos)
-            ok = stride_pos_in_range(ctx, bi, pos, recv, strict)
+            ok = stride_pos_in_range(ctx, bi, pos, recv, strict, F) or _bounded_minus_one(F, ctx, bi, pos, recv)
+            if not ok:
+                from expr import nobb
+                from r_bracket import walk as _walk
+                nrecv = nobb(recv)
+                mention = [nd for x in [pos] + list(strict) for nd in _walk(nobb(x))
+                           if nd and nd[0] == "place" and _unproven_bound(F, nd, nrecv)]
+                if not mention and ctx.parent is not None and ctx.consumer:
+                    pt = ctx.parent.body.term(ctx.consumer[0])
+                    if pt["k"] == "call" and pt["args"]:
+                        mention = [nd for nd in _walk(nobb(operand_tree(ctx.parent, pt["args"][0])))
+                                   if nd and nd[0] == "place" and _unproven_bound(F, nd, nrecv)]
+                if mention:
+                    R.undecided_site("R-BOUND", b.label(), "position %s is bounded through the cursor field %s, which starts at "
+                                     "Stride::len; that every later store keeps it there depends on a relation between two "
+                                     "cursors and is not decided" % (show(pos)[:50], show(mention[0])))
+                    continue
             R.check("R-BOUND", b.label(), ok, construct="Stride::index guarded by < Stride::len",
                     where="%s:%s" % (b.file, t["line"]),
                     detail="position %s on %s; strict guards %s; non-strict %s" % (
@@ -447,6 +637,37 @@ def r_index_failstop(F, R):
                 ok = stride_pos_in_range(ctx, bi, pos, recv, strict)
                 sites.append((bi, ok, "Stride::index under guard %s" % [show(s) for s in strict]))
         good = {bi for (bi, ok, _) in sites if ok}
+        # accesses made in closures handed to a combinator (`i.checked_sub(n).map_or_else(|| a.index(i),
+        # |j| b.index(j))`): the combinator's block is a fail-stop point when every closure it is
+        # given makes a guarded access
+        from core import all_ctxs
+        per_consumer = {}
+        for c in all_ctxs(F, b)[1:]:
+            if c.parent is None or c.parent.parent is not None or not c.consumer:
+                continue
+            csites = []
+            for (bi, t) in c.body.calls():
+                tag = callee_tag(t.get("callee"))
+                args = t["args"]
+                if len(args) < 2:
+                    continue
+                if tag in (("IndexContainer", "index"), ("IndexList", "index")):
+                    csites.append((True, "delegates to %s::index (checked as its own instance)" % tag[0]))
+                elif tag == ("Index", "index"):
+                    recv = trees(c, c.org.operand(args[0]))
+                    csites.append((recv == ("place", b.key, ("arg", 1), ()), "std-checked index into %s" % show(recv)))
+                elif tag == ("Stride", "index"):
+                    recv = trees(c, c.org.operand(args[0]))
+                    pos = operand_tree(c, args[1])
+                    strict, weak = strict_bound_facts(c, bi, pos)
+                    csites.append((stride_pos_in_range(c, bi, pos, recv, strict, F), "Stride::index under guard %s" % [show(s_) for s_ in strict]))
+            per_consumer.setdefault(c.consumer[0], []).append(csites)
+        for cb, lst in per_consumer.items():
+            if lst and all(cs and all(o for (o, _) in cs) for cs in lst):
+                good.add(cb)
+            for cs in lst:
+                for (o, w) in cs:
+                    sites.append((cb, o, "in a closure: " + w))
         ok = bool(sites) and all(o for (_, o, _) in sites) and not b.can_return_avoiding(good)
         R.check("R-BOUND", b.label(), ok, construct="every path ends in a fail-stop access",
                 where=b.where(), detail="; ".join(w for (_, _, w) in sites))
